@@ -132,9 +132,11 @@ Definition roundtrips (d : document) : Prop :=
   exists ts, lex (print d) = Some ts /\ parse (strip ts) = Ok d [].
 
 (* ---- when does a string survive being printed and lexed again? ----
-   ast.PrintValue writes the raw content between quotes; the content is stable when lexing
-   quote ++ raw ++ quote ++ " x" gives back one string token with literal [raw] and then the
-   identifier x.  (Evaluated on the implementation's trees to attribute round-trip failures.) *)
+   ast.PrintValue writes the raw content between quotes (and a line terminator before the closing
+   delimiter of a block string that ends in a quote or backslash); the content is stable when
+   lexing the printed string followed by " x" gives back one string token with literal [raw] and
+   then the identifier x.  (Evaluated on the implementation's trees: since the repairs every string
+   the parser stores must be stable.) *)
 Definition sentinel : bytes := [32; 120].
 Definition lex_lits (b : bytes) : option (list (kind * bytes)) :=
   match tokenize b with
@@ -142,8 +144,7 @@ Definition lex_lits (b : bytes) : option (list (kind * bytes)) :=
   | None => None
   end.
 Definition string_stable_b (raw : bytes) (block : bool) : bool :=
-  let q := if block then s_quote3 else s_quote in
-  match lex_lits (q ++ raw ++ q ++ sentinel) with
+  match lex_lits (print_value (VStr raw block) ++ sentinel) with
   | Some [(k, lit); (KIdent, [120])] =>
     kind_eqb k (if block then KBlockString else KString) && bytes_eqb lit raw
   | _ => false
